@@ -19,6 +19,7 @@ const (
 	cForInObj
 	cForInStr
 	cBlock
+	cElseIf // if / else if / else if / else with traced conditions
 	nConstructs
 )
 
@@ -81,6 +82,9 @@ type c07Node struct {
 	jname string
 	jval  bool
 	loopv string
+	// else-if chain: three conditions; the body of the node is the second branch
+	chain  [3]string
+	chainv [3]bool
 }
 
 func loopKind(k int) bool { return k >= cWhile && k <= cForInStr }
@@ -108,9 +112,13 @@ func (n *c07Node) render() string {
 	v := n.loopv
 	switch n.kind {
 	case cIf:
-		return "if ($." + n.cname + ") { " + body + " } print 'z" + n.id + "'; "
+		return "if (t('" + n.cname + "', $." + n.cname + ")) { " + body + " } print 'z" + n.id + "'; "
 	case cIfElse:
-		return "if ($." + n.cname + ") { " + body + " } else { print 'e" + n.id + "' } print 'z" + n.id + "'; "
+		return "if (t('" + n.cname + "', $." + n.cname + ")) { " + body + " } else { print 'e" + n.id + "' } print 'z" + n.id + "'; "
+	case cElseIf:
+		c := n.chain
+		return "if (t('" + c[0] + "', $." + c[0] + ")) { print 'first" + n.id + "' } else if (t('" + c[1] + "', $." + c[1] + ")) { " + body +
+			" } else if (t('" + c[2] + "', $." + c[2] + ")) { print 'third" + n.id + "' } else { print 'e" + n.id + "' } print 'z" + n.id + "'; "
 	case cWhile:
 		return v + " = 0; while (" + v + " < $." + n.nname + ") { " + v + "++; " + body + " } print 'z" + n.id + "'; "
 	case cFor:
@@ -168,12 +176,34 @@ func (n *c07Node) exec(c *c07Ctx) int {
 	}
 	switch n.kind {
 	case cIf:
+		c.out += n.cname + "\n"
 		if n.cval {
 			if s := n.body(c); s != sigNone {
 				return s
 			}
 		}
+	case cElseIf:
+		// every condition is evaluated at most once, in order, until one holds
+		c.out += n.chain[0] + "\n"
+		if n.chainv[0] {
+			c.out += "first" + n.id + "\n"
+		} else {
+			c.out += n.chain[1] + "\n"
+			if n.chainv[1] {
+				if s := n.body(c); s != sigNone {
+					return s
+				}
+			} else {
+				c.out += n.chain[2] + "\n"
+				if n.chainv[2] {
+					c.out += "third" + n.id + "\n"
+				} else {
+					c.out += "e" + n.id + "\n"
+				}
+			}
+		}
 	case cIfElse:
+		c.out += n.cname + "\n"
 		if n.cval {
 			if s := n.body(c); s != sigNone {
 				return s
@@ -222,6 +252,10 @@ func c07Build(c *c07Ctx, depth int, level int, name string) *c07Node {
 	c.nvar++
 	n.loopv = "v" + itoa(c.nvar)
 	switch n.kind {
+	case cElseIf:
+		for i := range n.chain {
+			n.chain[i], n.chainv[i] = c.cond()
+		}
 	case cIf, cIfElse:
 		n.cname, n.cval = c.cond()
 	case cWhile, cFor:
@@ -278,9 +312,9 @@ func VHC07Nesting() {
 	text := root.render()
 	var prog string
 	if c.inFn {
-		prog = "function f() { print 'f'; " + text + "print 'g'; return 1 }\n{ print 's'; r = f(); print 't', r }\n{ print 'second rule' }\nEND { print 'end' }"
+		prog = "function t(n, v) { print n; return v }\nfunction f() { print 'f'; " + text + "print 'g'; return 1 }\n{ print 's'; r = f(); print 't', r }\n{ print 'second rule' }\nEND { print 'end' }"
 	} else {
-		prog = "{ print 's'; " + text + "print 't' }\n{ print 'second rule' }\nEND { print 'end' }"
+		prog = "function t(n, v) { print n; return v }\n{ print 's'; " + text + "print 't' }\n{ print 'second rule' }\nEND { print 'end' }"
 	}
 	got, k := runProg(prog, c.doc)
 
